@@ -18,6 +18,7 @@ import (
 	"sync/atomic"
 
 	"foxverif/gen"
+	"foxverif/conc"
 	"foxverif/hist"
 	"foxverif/kit"
 
@@ -70,6 +71,10 @@ func main() {
 				c.Methods = hist.MethodPool[:1]
 				c.Pool = hist.GenPool(r, 4+r.IntN(6), true)
 				hist.GenFull(r, &c.Case, run.Pick(30, 60), 1+r.IntN(2))
+			case i%3 == 2:
+				c.Methods = hist.MethodPool[:1]
+				hist.GenPartial(r, &c.Case, 3, 5)
+				hist.GenOps(r, &c.Case, len(c.Ops)+run.Pick(30, 60), 1+r.IntN(2), false)
 			case i%3 == 1:
 				hist.GenStory(r, &c.Case)
 			default:
@@ -89,6 +94,10 @@ func main() {
 	}
 	if run.Mode() == "race" {
 		concurrent(run)
+		// the state a request is being served from does not change under it either: all lookups of one request
+		// (405 / automatic OPTIONS probing of the other methods) use the tree the request started with
+		conc.AllowFlip(run)
+		conc.MethodFlip(run)
 	}
 }
 
